@@ -141,8 +141,11 @@ CLAIMED.update({
              'worker/member is started and recorded, on an init failure the init error is raised, the failing worker joined, every earlier one sent the end marker and '
              'joined / stopped, nothing marked started; stop() and Server.__exit__/__aexit__ are proved to route the end marker behind every accepted input (through the '
              'onboarding buffer / the forwarding thread) before stopping workers, to join a worker only after the marker was sent, and to reset state for re-entry; the '
-             'onboarding thread is proved FIFO with the marker last; Worker.run is proved to perform the init handshake.',
-        technique='contract-based deductive verification: pyvc VCs with ghost running-set counters, symbolic families, event-order obligations (S3), z3',
+             'onboarding thread is proved FIFO with the marker last; Worker.run is proved to perform the init handshake (also for failures before the object exists). '
+             'ONE KNOWN FINDING stands (KNOWN_FINDINGS.txt; printed as KNOWN-FINDING, exit 0): the stop-protocol lemma "no writer is left blocked after the reader stopped at the '
+             'first end marker" holds for a single writer and FAILS for several worker processes on a pipe-backed queue (Server.__exit__ hangs with abandoned requests and large '
+             'pending results); reproduced by replay/scenarios/c11_exit_pending_large_results.py, re-run in the thorough tier.',
+        technique='contract-based deductive verification: pyvc VCs with ghost running-set counters, symbolic families, event-order obligations (S3), a protocol lemma over the component contracts, z3',
         ref='DESIGN.md 3/C11'),
 })
 
@@ -220,7 +223,7 @@ def main():
         'checks': checks,
         'not_applicable': na,
         'notes': 'Exit codes of every check: 0 proved, 1 violation (VIOLATION line), 2 undecided only, 3 engine error. '
-                 'Genuine defects found on the pinned tree were repaired by fix: commits in /repo (see KNOWN_FINDINGS.txt).',
+                 'Genuine defects found on the pinned tree were repaired by fix: commits in /repo (26; see KNOWN_FINDINGS.txt); one is recorded there as a known finding (C11) and printed as KNOWN-FINDING by the C11 check.',
     }
     json.dump(m, open(os.path.join(HERE, 'MANIFEST.json'), 'w'), indent=1)
     print('claimed', sorted(CLAIMED), 'pending', len(na))
